@@ -9,14 +9,16 @@ from . import common as C
 
 PROP = 'C13'
 RULE = ("prophyc.main(args) is run in-process under a sys.monitoring LINE-event budget (20x a calibration compile + 2000 "
-        "per input byte) on token-level corruptions, hostile constant expressions and structural edits of valid prophy "
+        "per input byte) and a 40 s CPU-time timer (ITIMER_VIRTUAL: loops below the Python level, e.g. a backtracking "
+        "regular expression, produce no line events) on token-level corruptions, hostile constant expressions and structural edits of valid prophy "
         "schemas, malformed/cyclic isar XML, bad patch files, missing/cyclic/diamond includes and bad option "
         "combinations; the answer is classified ok (all requested outputs must exist) / designed (ProphycError, "
         "SystemExit) / project exception / library exception / internal built-in exception / budget exhausted; the "
         "last two are violations. A sample is also run through the CLI (exit status in {0,1}, non-empty stderr on "
         "failure, no traceback). distinct = (input family, outcome class, exception type/diagnostic shape)")
 ASSUMPTIONS = [
-    "'terminates within bounded time' is decided on line-event counts, never on wall-clock",
+    "'terminates within bounded time' is decided on line-event counts and on consumed CPU time of the process (valid "
+    "compiles of these inputs take well under a second of it), never on wall-clock",
     "project exception classes (prophyc.*), bare Exception from prophyc/patch.py and library exceptions "
     "(xml ParseError, OSError) are tolerated and counted; built-in exception types escaping main() are violations",
     "text inputs are valid UTF-8",
